@@ -39,11 +39,12 @@ VARIABLES work,       \* working tree of the live handle
           iv,         \* initial version option of this store (0 = unset)
           nops,       \* uncommitted writes since the last commit/load (bounding only)
           wm, vm,     \* ghost: working map, versioned maps (Keys -> Vals \cup {Absent})
+          pins,       \* versions held by an open Exporter of the live handle (version readers)
           wlog,       \* ghost (generation only): the writes since the last commit/load, as change-set pairs
           hist, done
 
-vars == <<work, saved, first, latest, version, fast, iv, nops, wm, vm, wlog, hist, done>>
-view == <<work, saved, first, latest, version, fast, iv, nops>>
+vars == <<work, saved, first, latest, version, fast, iv, nops, wm, vm, wlog, pins, hist, done, pins>>
+view == <<work, saved, first, latest, version, fast, iv, nops, pins>>
 
 EmptyMap == [k \in Keys |-> Absent]
 Retained == IF latest = 0 THEN {} ELSE first..latest
@@ -57,7 +58,7 @@ Target == TargetOf(version, iv)
 
 Init == /\ work = Nil /\ saved = <<>> /\ first = 0 /\ latest = 0 /\ version = 0
         /\ fast \in BOOLEAN /\ iv \in IVs /\ nops = 0
-        /\ wm = EmptyMap /\ vm = <<>> /\ wlog = <<>>
+        /\ wm = EmptyMap /\ vm = <<>> /\ wlog = <<>> /\ pins = {}
         \* the first record of a behaviour says how the store is opened
         /\ hist = (IF Record THEN <<[op |-> "open", a |-> [fast |-> fast], r |-> [ver |-> 0, err |-> FALSE],
                                      first |-> 0, latest |-> 0, ver |-> 0, fast |-> fast, iv |-> iv,
@@ -79,19 +80,19 @@ Set(k, v) ==
   LET r == SetT(work, k, v) IN
   /\ work' = r.t /\ wm' = [wm EXCEPT ![k] = v] /\ nops' = nops + 1
   /\ WLog([k |-> k, v |-> v, del |-> FALSE])
-  /\ UNCHANGED <<saved, first, latest, version, fast, iv, vm, done>>
+  /\ UNCHANGED <<saved, first, latest, version, fast, iv, vm, done, pins>>
   /\ Log("set", [k |-> k, v |-> v], [upd |-> r.upd, err |-> FALSE])
 
 \* a nil value is rejected without effect
 SetNil(k) ==
-  /\ UNCHANGED <<work, saved, first, latest, version, fast, iv, nops, wm, vm, wlog, done>>
+  /\ UNCHANGED <<work, saved, first, latest, version, fast, iv, nops, wm, vm, wlog, done, pins>>
   /\ Log("setnil", [k |-> k], [err |-> TRUE])
 
 Remove(k) ==
   LET r == RemT(work, k) IN
   /\ work' = r.t /\ wm' = [wm EXCEPT ![k] = Absent] /\ nops' = nops + 1
   /\ WLog([k |-> k, v |-> 0, del |-> TRUE])
-  /\ UNCHANGED <<saved, first, latest, version, fast, iv, vm, done>>
+  /\ UNCHANGED <<saved, first, latest, version, fast, iv, vm, done, pins>>
   /\ Log("rm", [k |-> k], [rem |-> r.rem, val |-> IF r.rem THEN r.val ELSE Absent, err |-> FALSE])
 
 \* SaveVersion: a new version, or - when the target exists - a no-op iff the hash is identical.
@@ -101,11 +102,11 @@ SaveCore(op, a, w, m, lg) ==
   IF t \in Retained THEN
      IF SameHash(Stamp(w, t), saved[t]) THEN
         /\ version' = t /\ work' = saved[t] /\ wm' = vm[t] /\ nops' = 0 /\ WClear
-        /\ UNCHANGED <<saved, first, latest, fast, iv, vm, done>>
+        /\ UNCHANGED <<saved, first, latest, fast, iv, vm, done, pins>>
         /\ Log(op, a, [ver |-> t, err |-> FALSE, noop |-> TRUE, tree |-> saved[t]])
      ELSE
         /\ work' = w /\ wm' = m /\ wlog' = lg
-        /\ UNCHANGED <<saved, first, latest, version, fast, iv, nops, vm, done>>
+        /\ UNCHANGED <<saved, first, latest, version, fast, iv, nops, vm, done, pins>>
         /\ Log(op, a, [ver |-> t, err |-> TRUE, noop |-> FALSE, tree |-> Nil])
   ELSE
      LET s == Stamp(w, t)
@@ -114,7 +115,7 @@ SaveCore(op, a, w, m, lg) ==
      /\ vm' = (t :> m) @@ vm
      /\ latest' = t /\ version' = t /\ first' = IF first = 0 THEN t ELSE first
      /\ work' = s /\ wm' = m /\ nops' = 0 /\ WClear
-     /\ UNCHANGED <<fast, iv, done>>
+     /\ UNCHANGED <<fast, iv, done, pins>>
      \* cs: the change set TraverseStateChanges must report for t; nf: the writes of this version
      \* were already in that normal form (then replaying cs reproduces the same tree, hence hash)
      /\ Log(op, a, [ver |-> t, err |-> FALSE, noop |-> FALSE, tree |-> s, cs |-> cs, nf |-> (lg = cs), pred |-> version])
@@ -134,25 +135,26 @@ ApplyCS(t, m, cs, j) ==    \* returns [t, m, bad]: bad = index of the failing pa
 Dirty == ~IsNil(work) /\ work.ver = 0
 SaveChangeSet(cs) ==
   IF Dirty THEN
-     /\ UNCHANGED <<work, saved, first, latest, version, fast, iv, nops, wm, vm, wlog, done>>
+     /\ UNCHANGED <<work, saved, first, latest, version, fast, iv, nops, wm, vm, wlog, done, pins>>
      /\ Log("savecs", [cs |-> cs], [err |-> TRUE, dirty |-> TRUE])
   ELSE LET r == ApplyCS(work, wm, cs, 1) IN
      IF r.bad # 0 THEN
         /\ work' = r.t /\ wm' = r.m /\ nops' = nops + 1
         /\ wlog' = IF Record THEN wlog \o SubSeq(cs, 1, r.bad - 1) ELSE wlog
-        /\ UNCHANGED <<saved, first, latest, version, fast, iv, vm, done>>
+        /\ UNCHANGED <<saved, first, latest, version, fast, iv, vm, done, pins>>
         /\ Log("savecs", [cs |-> cs], [err |-> TRUE, dirty |-> FALSE])
      ELSE SaveCore("savecs", [cs |-> cs], r.t, r.m, IF Record THEN wlog \o cs ELSE wlog)
 
 \* discard uncommitted changes
 Rollback ==
   /\ work' = TreeAt(version) /\ wm' = MapAt(version) /\ nops' = 0 /\ WClear
-  /\ UNCHANGED <<saved, first, latest, version, fast, iv, vm, done>>
+  /\ UNCHANGED <<saved, first, latest, version, fast, iv, vm, done, pins>>
   /\ Log("rollback", <<>>, [err |-> FALSE])
 
 \* close the handle, open a new one (fast index on/off chosen per open), Load() the latest version
 Reopen(f) ==
   /\ fast' = f /\ version' = latest /\ work' = TreeAt(latest) /\ wm' = MapAt(latest) /\ nops' = 0 /\ WClear
+  /\ pins' = {}   \* the harness closes open exporters before it closes the handle
   /\ UNCHANGED <<saved, first, latest, iv, vm, done>>
   /\ Log("reopen", [fast |-> f], [ver |-> latest, err |-> FALSE])
 
@@ -160,6 +162,7 @@ Reopen(f) ==
 ReopenAt(f, t) ==
   /\ t \in Retained
   /\ fast' = f /\ version' = t /\ work' = saved[t] /\ wm' = vm[t] /\ nops' = 0 /\ WClear
+  /\ pins' = {}
   /\ UNCHANGED <<saved, first, latest, iv, vm, done>>
   /\ Log("reopenat", [fast |-> f, t |-> t], [ver |-> latest, err |-> FALSE])
 
@@ -168,42 +171,64 @@ LoadVersion(t) ==
   LET tt == IF t = 0 THEN latest ELSE t IN
   IF latest = 0 /\ t = 0 THEN
      \* nothing to load: the call returns 0 and the working state stays as it is
-     /\ UNCHANGED <<work, saved, first, latest, version, fast, iv, nops, wm, vm, wlog, done>>
+     /\ UNCHANGED <<work, saved, first, latest, version, fast, iv, nops, wm, vm, wlog, done, pins>>
      /\ Log("load", [t |-> t], [ver |-> 0, err |-> FALSE])
   ELSE IF tt \in Retained THEN
      /\ version' = tt /\ work' = TreeAt(tt) /\ wm' = MapAt(tt) /\ nops' = 0 /\ WClear
-     /\ UNCHANGED <<saved, first, latest, fast, iv, vm, done>>
+     /\ UNCHANGED <<saved, first, latest, fast, iv, vm, done, pins>>
      /\ Log("load", [t |-> t], [ver |-> latest, err |-> FALSE])
   ELSE
-     /\ UNCHANGED <<work, saved, first, latest, version, fast, iv, nops, wm, vm, wlog, done>>
+     /\ UNCHANGED <<work, saved, first, latest, version, fast, iv, nops, wm, vm, wlog, done, pins>>
      /\ Log("load", [t |-> t], [err |-> TRUE])
 
-\* LoadVersionForOverwriting(t), t >= 1: load t and erase every later version
+\* LoadVersionForOverwriting(t), t >= 1: load t and erase every later version. If a later version
+\* is held by an open export the erasure is refused - after the handle has already loaded t.
 LoadVersionForOverwriting(t) ==
   IF t \in Retained THEN
-     /\ saved' = Restrict(saved, first..t) /\ vm' = Restrict(vm, first..t)
-     /\ latest' = t /\ version' = t /\ work' = saved[t] /\ wm' = vm[t] /\ nops' = 0 /\ WClear
-     /\ UNCHANGED <<first, fast, iv, done>>
-     /\ Log("lvfo", [t |-> t], [err |-> FALSE])
+     IF \E p \in pins : p > t THEN
+        /\ version' = t /\ work' = saved[t] /\ wm' = vm[t] /\ nops' = 0 /\ WClear
+        /\ UNCHANGED <<saved, first, latest, fast, iv, vm, done, pins>>
+        /\ Log("lvfo", [t |-> t], [err |-> TRUE, loaded |-> TRUE])
+     ELSE
+        /\ saved' = Restrict(saved, first..t) /\ vm' = Restrict(vm, first..t)
+        /\ latest' = t /\ version' = t /\ work' = saved[t] /\ wm' = vm[t] /\ nops' = 0 /\ WClear
+        /\ UNCHANGED <<first, fast, iv, done, pins>>
+        /\ Log("lvfo", [t |-> t], [err |-> FALSE, loaded |-> TRUE])
   ELSE
-     /\ UNCHANGED <<work, saved, first, latest, version, fast, iv, nops, wm, vm, wlog, done>>
-     /\ Log("lvfo", [t |-> t], [err |-> TRUE])
+     /\ UNCHANGED <<work, saved, first, latest, version, fast, iv, nops, wm, vm, wlog, done, pins>>
+     /\ Log("lvfo", [t |-> t], [err |-> TRUE, loaded |-> FALSE])
 
 \* DeleteVersionsTo(n): never the latest version; below the first version: nothing to do
 DeleteVersionsTo(n) ==
   IF n >= latest THEN
-     /\ UNCHANGED <<work, saved, first, latest, version, fast, iv, nops, wm, vm, wlog, done>>
+     /\ UNCHANGED <<work, saved, first, latest, version, fast, iv, nops, wm, vm, wlog, done, pins>>
+     /\ Log("delto", [n |-> n], [err |-> TRUE])
+  ELSE IF \E p \in pins : p >= first /\ p <= n THEN
+     \* a version held by an open export is never deleted: the whole request is refused
+     /\ UNCHANGED <<work, saved, first, latest, version, fast, iv, nops, wm, vm, wlog, done, pins>>
      /\ Log("delto", [n |-> n], [err |-> TRUE])
   ELSE IF n < first THEN
-     /\ UNCHANGED <<work, saved, first, latest, version, fast, iv, nops, wm, vm, wlog, done>>
+     /\ UNCHANGED <<work, saved, first, latest, version, fast, iv, nops, wm, vm, wlog, done, pins>>
      /\ Log("delto", [n |-> n], [err |-> FALSE])
   ELSE
      /\ first' = n + 1
      /\ saved' = Restrict(saved, (n + 1)..latest) /\ vm' = Restrict(vm, (n + 1)..latest)
-     /\ UNCHANGED <<work, latest, version, fast, iv, nops, wm, wlog, done>>
+     /\ UNCHANGED <<work, latest, version, fast, iv, nops, wm, wlog, done, pins>>
      /\ Log("delto", [n |-> n], [err |-> FALSE])
 \* contract (doc.go): the version a live handle has loaded is not deleted under it
 DelOk(n) == n < version \/ n >= latest
+
+\* open / close an Exporter on a retained version (at most one per version here)
+ExportOpen(t) ==
+  /\ t \in Retained /\ t \notin pins
+  /\ pins' = pins \cup {t}
+  /\ UNCHANGED <<work, saved, first, latest, version, fast, iv, nops, wm, vm, wlog, done>>
+  /\ Log("expopen", [t |-> t], [err |-> FALSE])
+ExportClose(t) ==
+  /\ t \in pins
+  /\ pins' = pins \ {t}
+  /\ UNCHANGED <<work, saved, first, latest, version, fast, iv, nops, wm, vm, wlog, done>>
+  /\ Log("expclose", [t |-> t], [err |-> FALSE])
 
 \* export version t, import it into an empty store, go on with that store
 ImportSwitch(t, f) ==
@@ -211,6 +236,7 @@ ImportSwitch(t, f) ==
   /\ LET s == ImportTree(saved[t], t) IN
      /\ saved' = (t :> s) /\ vm' = (t :> vm[t])
      /\ first' = t /\ latest' = t /\ version' = t /\ work' = s /\ wm' = vm[t] /\ nops' = 0 /\ fast' = f /\ WClear
+     /\ pins' = {}
      /\ UNCHANGED <<iv, done>>
      /\ Log("import", [t |-> t, fast |-> f], [err |-> FALSE, tree |-> s])
 
@@ -232,12 +258,14 @@ NextBounded ==
   \/ \E t \in 1..(latest + 1) : LoadVersionForOverwriting(t)
   \/ \E n \in 0..(latest + 1) : DelOk(n) /\ DeleteVersionsTo(n)
   \/ \E t \in Retained, f \in BOOLEAN : ImportSwitch(t, f)
+  \/ \E t \in Retained : ExportOpen(t)
+  \/ \E t \in pins : ExportClose(t)
   \/ nops < MaxOps /\ (latest < MaxVer \/ Target \in Retained) /\ \E cs \in CSCandsB : SaveChangeSet(cs)
 
 \* simulation: pick an action class at random, then TLC picks one enabled instance uniformly;
 \* exactly one line per behaviour is printed by Finish
 Finish == /\ Len(hist) >= D /\ ~done /\ done' = TRUE
-          /\ UNCHANGED <<work, saved, first, latest, version, fast, iv, nops, wm, vm, wlog, hist>>
+          /\ UNCHANGED <<work, saved, first, latest, version, fast, iv, nops, wm, vm, wlog, pins, hist>>
           /\ PrintT(<<"TRACE", ToJson(hist)>>)
 
 NextSim ==
@@ -258,6 +286,8 @@ NextSim ==
       [] c = "delto"    -> \E n \in 0..(latest + 1) : DelOk(n) /\ DeleteVersionsTo(n)
       [] c = "import"   -> IF latest = 0 THEN SaveVersion ELSE \E t \in Retained, f \in BOOLEAN : ImportSwitch(t, f)
       [] c = "savecs"   -> \E cs \in CSCands : SaveChangeSet(cs)
+      [] c = "expopen"  -> IF Retained \ pins = {} THEN Rollback ELSE \E t \in Retained \ pins : ExportOpen(t)
+      [] c = "expclose" -> IF pins = {} THEN Rollback ELSE \E t \in pins : ExportClose(t)
       [] OTHER          -> SaveVersion
 
 SpecBounded == Init /\ [][NextBounded]_vars
@@ -272,7 +302,8 @@ InvContents == /\ MapOf(work) = wm
                /\ \A v \in Retained : MapOf(saved[v]) = vm[v]
 InvShape    == /\ WellFormed(work)
                /\ \A v \in Retained : WellFormed(saved[v]) /\ Persisted(saved[v])
-InvRange    == /\ (latest = 0) = (first = 0)
+InvRange    == /\ pins \subseteq Retained      \* C04/C06: a version held by an open export is never deleted
+               /\ (latest = 0) = (first = 0)
                /\ first <= latest
                /\ version \in Retained \cup {0}
                /\ (version = 0) => (latest = 0)
